@@ -61,9 +61,16 @@ func vrtStr(name string, idx ...int) string {
 	if v, ok := vrtCur.model[vrtKey(name, idx)]; ok && v.S != nil {
 		b, err := base64.StdEncoding.DecodeString(*v.S)
 		if err == nil {
-			// amplified attempt: the user's non-empty data carries 32 KiB of incompressible padding
-			if len(b) > 0 && strings.HasPrefix(name, "user.") && vrtBool("vrt.amplify") {
-				return string(b) + vrtNoise(32<<10)
+			// amplified attempts: non-empty payload data (the user's record, the codec harness's
+			// data) carries 32 KiB of incompressible (mode 1) or 64 KiB of highly compressible
+			// (mode 2) padding
+			if len(b) > 0 && (strings.HasPrefix(name, "user.") || name == "data") {
+				switch vrtInt("vrt.amplify") {
+				case 1:
+					return string(b) + vrtNoise(32<<10)
+				case 2:
+					return string(b) + strings.Repeat("A", 64<<10)
+				}
 			}
 			return string(b)
 		}
